@@ -100,9 +100,12 @@ class Ctx:
 
 def prob_expr(c):
     """a constant probability, possibly symbolic"""
-    if c.syms and c.b(0.5):
+    if c.syms and c.b(0.6):
         s = c.pick(c.syms)
-        return c.pick([["sym", s], ["sub", L.num(1), ["sym", s]], ["div", ["sym", s], "2"]])
+        return c.pick([["sub", L.num(1), ["sym", s]], ["sym", s], ["div", ["sym", s], "2"], ["sub", L.num(1), ["div", ["sym", s], "2"]]])
+    if c.b(0.1):
+        # a constant probability written as a sum or difference (top-level + / - inside the braces)
+        return c.pick([["sub", L.num("1/2"), L.num("1/4")], ["add", L.num("1/4"), L.num("1/4")], ["sub", L.num(1), L.num("1/3")], ["sub", L.num("3/4"), L.num("1/2")]])
     return L.num(c.pick(PROBS))
 
 
@@ -334,12 +337,12 @@ def _fresh_atom(c):
 
 def condition(c, depth=0):
     r = c.integer(0, 9)
-    if depth >= 2 or r <= 5:
+    if depth >= 2 or r <= 4:
         return atom(c)
-    if r <= 6:
+    if r <= 5:
         return ["not", condition(c, depth + 1)]
     first = condition(c, depth + 1)
-    if first[0] == "cmp" and first[1][0] == "var" and c.b(0.4):
+    if first[0] == "cmp" and first[1][0] == "var" and c.b(0.5):
         # second operand over the same variable (overlapping or complementary sides)
         f = first[1][1]
         ints = [x for x in c.fin[f] if x.denominator == 1] or [F(0)]
@@ -555,10 +558,12 @@ def programs(draw, profile="discrete", uninit_ok=True, min_body=1, max_body=4):
     init = init_block(c, uninit_ok)
     # "previous value" copy: h = v placed somewhere in the body, h initialised like v (the pattern prev = pos)
     shadow = None
-    pool = c.num + c.drw
-    if pool and c.b(0.15):
+    pool = c.drw + c.drw + c.num
+    if pool and c.b(0.2):
         shadow = c.pick(pool)
-        body.insert(c.integer(0, len(body)), ["assign", "h", ["expr", L.var(shadow)]])
+        first_assign = [i for i, s_ in enumerate(body) if s_[0] == "assign" and s_[1] == shadow]
+        pos = c.integer(0, first_assign[0]) if first_assign and c.b(0.7) else c.integer(0, len(body))
+        body.insert(pos, ["assign", "h", ["expr", L.var(shadow)]])
     # draw variables are initialised too (sometimes), so that goals at n=0 are defined
     for u in c.drw:
         if knobs.get("inclass") or c.b(0.8):
